@@ -33,7 +33,9 @@ theorem wall_clock_sites_pinned :
     ((setSites.filter (fun s => s.cls = .wallClock)).map (fun s => (s.func, s.method))) =
       [("MarkTag.archive", "set_value"), ("AccumulatorTag.reset", "set_value"),
        ("BlockTimeTag.on_start", "set_value"), ("ScopeTimeTag.on_start", "set_value"),
-       ("ScopeTimeTag.on_scope_start", "set_value"), ("AccumulatedColumnVolume.reset", "set_value"),
+       ("ScopeTimeTag.on_scope_start", "set_value"),
+       ("AccumulatorBlockTag.on_block_start", "set_value"), ("AccumulatorBlockTag.on_block_end", "set_value"),
+       ("AccumulatedColumnVolume.reset", "set_value"),
        ("DerivedTag._set_calculated_value", "set_value"), ("DerivedTag._set_calculated_value", "simulate_value"),
        ("DerivedTag.stop_simulation", "simulate_value"), ("ArchiverTag.on_start", "set_value"),
        ("ArchiverTag.on_stop", "set_value"),
